@@ -49,7 +49,7 @@ def u_status_line(c):
             v, code, reason = out.value
             c.oblige("returns-version-code-reason", "%s %d %s" % (v, code, reason or "") == line and 0 <= code <= 999)
         return
-    line = c.str("line", latin1=True)
+    line = c.str("line")            # any Unicode text (the parsers are public functions taking str)
     spec = regex.re_of(RFC_STATUS_LINE)
     real = regex.lang_fullmatch(U._ABNF.status_line)
     c.cover("language")
@@ -180,8 +180,20 @@ def standin(tier, seed):
             if not any(k.endswith("*") for k in params):
                 fail("token-valued parameters do not round-trip: %r -> %r" % (enc, (k2, d2)), key=key, params=params)
     # ---- timestamps
-    stamps = [0, 1, 59, 60, 86399, 86400, 951782400, 951868800, 1359312200, 1700000000, 2147483647, 2147483648, 4102444800, 253402200000] + [rng.randint(0, 4102444800) for _ in range(N // 4)]
-    for ts in stamps:
+    import os
+    old_tz = os.environ.get("TZ")
+    zones = [None, "EST5EDT", "Asia/Kolkata"] if tier != "quick" else [None, "EST5EDT"]
+    stamps_all = [0, 1, 59, 60, 86399, 86400, 951782400, 951868800, 1359312200, 1700000000, 2147483647, 2147483648, 4102444800, 253402200000] + [rng.randint(0, 4102444800) for _ in range(N // 4)]
+    for zone, ts in [(z, t) for z in zones for t in (stamps_all if z is None else stamps_all[:40])]:
+        # naive datetimes are documented to mean UTC whatever the process's local time zone is
+        if zone is None:
+            if old_tz is None:
+                os.environ.pop("TZ", None)
+            else:
+                os.environ["TZ"] = old_tz
+        else:
+            os.environ["TZ"] = zone
+        time.tzset()
         dt = datetime.datetime.fromtimestamp(ts, datetime.timezone.utc)
         forms = [ts, float(ts), time.gmtime(ts), tuple(time.gmtime(ts)), dt, dt.replace(tzinfo=None), dt.astimezone(datetime.timezone(datetime.timedelta(hours=5, minutes=30)))]
         for fm in forms:
@@ -195,6 +207,11 @@ def standin(tier, seed):
             nontriv.add(("ts", type(fm).__name__))
             if int(back.timestamp()) != ts or not text.endswith(" GMT") or re.fullmatch(r"(Mon|Tue|Wed|Thu|Fri|Sat|Sun), \d{2} (Jan|Feb|Mar|Apr|May|Jun|Jul|Aug|Sep|Oct|Nov|Dec) \d{4} \d{2}:\d{2}:\d{2} GMT", text) is None:
                 fail("format_timestamp(%r) = %r parses back to %r" % (fm, text, back), ts=ts)
+    if old_tz is None:
+        os.environ.pop("TZ", None)
+    else:
+        os.environ["TZ"] = old_tz
+    time.tzset()
     # ---- url_concat
     UA = list("ab/?&=#%+ ;:@é") + ["%20", "a=b", "&&", "x=", "=y"]
     for _ in range(N // 2):
